@@ -101,19 +101,19 @@ def argOK (a : Gen.DigestArg) : Bool :=
     (tm != .id || a.goType == "[8]byte[:]") && (tm != .bidNonce || a.goType == "[32]byte[:]")
 
 def fnOK (f : Gen.DigestFn) (guards : List String) : Bool :=
-  f.head == "var ( msg bytes.Buffer result [sha256.Size]byte )" :: guards &&
-  f.tag == "t.Version" &&
-  f.cases.all (fun c => c.pre == [] && c.post == ["if err != nil { return result, err }"] && c.args.all argOK) &&
-  f.dflt == ["return result, fmt.Errorf(\"unknown version %d\", t.Version)"] &&
-  f.tail == ["return sha256.Sum256(msg.Bytes()), nil"]
+  f.head == guards && f.tag == "t.Version" &&
+  f.cases.all (fun c => c.pre == [] && c.args.all argOK) &&
+  f.dflt == ["error"] && f.tail == ["sha256"]
 
-/-- Statement-level shape of `OfferDigest`/`OrderDigest` in the current source = what `offerPreimage` /
-`orderPreimage` model: no statement before the switch except (for the order digest) the guard
-`t.State < StateOrdered || t.Order == nil`, switch on `t.Version`, one `WriteElements` per case whose
-arguments have the element widths the model uses, error in the default clause, SHA-256 of the buffer. -/
+/-- Semantic shape of `OfferDigest`/`OrderDigest` in the current source (facts from the symbolic evaluation
+of the functions, independent of how the element lists are assembled) = what `offerPreimage` /
+`orderPreimage` model: the only guard before anything is written is (for the order digest)
+`t.State < StateOrdered || t.Order == nil`; the element list is selected by `t.Version`; no other statement
+influences a case; every element has the width the model uses (static Go type → case of the regenerated
+`codec.WriteElement` switch); an unknown version is an error; the result is SHA-256 of the written buffer. -/
 theorem C14_digest_functions_as_modelled :
     fnOK Gen.C14.ticketOfferDigest [] = true ∧
-    fnOK Gen.C14.ticketOrderDigest ["if t.State < StateOrdered || t.Order == nil { return result, fmt.Errorf(\"invalid state for order digest\") }"] = true := by
+    fnOK Gen.C14.ticketOrderDigest ["t.State < StateOrdered || t.Order == nil"] = true := by
   decide
 
 /-! ## preimage injectivity: the digest input determines every covered term -/
